@@ -48,6 +48,7 @@ CLAUSES = {
     "DefectNotClosed": ["C06", "C07", "C17"], "DeliveredAfterDefect": ["C06", "C17"],
     "DeliverWithoutFrame": ["C13", "C17"], "FrameNotDelivered": ["C13", "C07"],
     "Misread": ["C03", "C13", "C17"], "UnhandledException": ["C17", "C07"],
+    "SpuriousReset": ["C13", "C10", "C09"],
     "AttemptAfterClose": ["C15"], "WriteAfterClose": ["C15"], "NotifyAfterClose": ["C15"],
     "ResidualTasks": ["C15"], "ConnLeftOpen": ["C15"],
 }
@@ -187,7 +188,7 @@ def _validate_shard(args):
     return shard_id, verdicts, res.generated, res.distinct, res.out if (res.error or len(verdicts) != len(traces)) else ""
 
 
-TRACE_CFG = "INIT Init\nNEXT Next\nCHECK_DEADLOCK FALSE\n"
+TRACE_CFG = "CONSTANT QMAX = 10\nINIT Init\nNEXT Next\nCHECK_DEADLOCK FALSE\n"
 
 
 def validate(module, traces, shards=NCPU, cfg=TRACE_CFG, extra_env=None):
